@@ -163,13 +163,13 @@ def _hist_strategy(kinds):
                 cfg_b["with_free_stream"] = draw(st.booleans())
                 cfg_b["with_forcing"] = draw(st.booleans())
                 if cfg_a["width"] == 0:  # damping kernels embed the geometry: keep it when width > 0 (compile cost)
-                    cfg_b["x_range"] = draw(gen.nice_or_log(0.1, 10.0, nice=(1.0,)))
+                    cfg_b["x_range"] = draw(st.one_of(gen.nice_or_log(0.1, 10.0, nice=(1.0,)), gen.log_uniform(1e-3, 1e3)))
                 if cfg_a["sim"] == "ns3d":
                     cfg_b["filter"] = draw(st.one_of(st.none(), st.fixed_dictionaries(
                         {"type": st.sampled_from(["multiplicative", "convolution"]), "order": st.integers(1, 3)})))
                     cfg_b["poisson"] = draw(st.sampled_from(["greens_function_convolution", "fast_diagonalisation"]))
             else:
-                cfg_b["x_range"] = draw(gen.nice_or_log(0.1, 10.0, nice=(1.0,)))
+                cfg_b["x_range"] = draw(st.one_of(gen.nice_or_log(0.1, 10.0, nice=(1.0,)), gen.log_uniform(1e-3, 1e3)))
             ncomp = {"ns2d": 1, "ns3d": 3, "passive2d": 1, "passive3d_scalar": 1, "passive3d_vector": 3}[cfg_a["sim"]]
             fk = ["constant", "poly", "bumps", "spikes", "checker", "noise", "mixed", "boxnoise"]
             state = st.fixed_dictionaries({
